@@ -683,6 +683,28 @@ def per_iteration_decorators(rng, case):
     return case
 
 
+def lazy_foreach(rng, case):
+    """foreach over a GENERATOR expression whose filter reads a key the body changes: the items are
+    pulled one at a time, each test made against the context as the previous iterations left it."""
+    x = name('x')
+    items = rng.choice([[1, 2, 3], [1, 2, 3, 4], [2, 1, 3]])
+    cond = rng.choice([['cmp', 'gt', x, ['mul', name('cnt'), ['int', 2]]],
+                       ['cmp', 'ne', x, ['add', name('cnt'), ['int', 1]]],
+                       ['cmp', 'ge', x, ['add', name('cnt'), name('cnt')]]])
+    st = {'body': 'incr', 'foreach': py(['genexp', x, 'x', ['list', [['int', v] for v in items]], cond]),
+          'in': [['ptag', 'main/steps/lazy'], ['vincr', 'cnt']]}
+    if rng.random() < 0.3:
+        st['while'] = {'max': 2}
+    probe = {'body': 'probe', 'in': [['ptag', 'main/steps/lazy-after'], ['pwatch', {'l': ['cnt', 'i']}]]}
+    for g in case['lib'][0][1]:
+        if g[0] == 'steps':
+            g[1] = [st, probe] + (g[1] or [])
+            break
+    else:
+        case['lib'][0][1].insert(0, ['steps', [st, probe]])
+    return case
+
+
 def ctx_config_call(rng, case):
     """call / switch configuration that lives in the context (set by an earlier step, not given through
     `in`): the callee removes or overwrites it; when the call returns the caller's configuration is the
